@@ -38,6 +38,43 @@ def files_of(tr: Trace, upto):
     return files
 
 
+def oracle_eof_checksum(tr: Trace):
+    """C09, last clause, on any source-handler trace: every EOF PDU the handler emits (nominal, after a cancel or a fault,
+    re-sent on a Positive-ACK timer expiry; first or later transaction on the handler) carries the checksum of exactly
+    the first `file size` bytes of the file its transaction sends, for the checksum type configured for the receiver."""
+    from harness import c09
+    puts = []          # accepted put requests in order: (step index, put dict, file bytes at that moment)
+    seq_of = {}        # transaction sequence number -> index into puts
+    tampered = set()   # put indexes whose source file the environment changed while the transaction was running
+    n = 0
+    for st in tr.steps:
+        if st.tag == 8 and st.ob["ret"] == 1 and st.ob["exc"] == 0:
+            put = dec_put(st.op[1:])
+            puts.append((st.i, put, None if put["src"] is None else files_of(tr, st.i).get(put["src"])))
+        elif st.tag == 7 and puts and st.prev is not None and st.prev["fields"]["state"] == 1:
+            tampered.add(len(puts) - 1)
+        for e in st.ob["events"]:
+            if e[0] == 1 and puts and e[2] not in seq_of:
+                seq_of[e[2]] = len(puts) - 1
+        if st.tag == 2 and st.ob["ret"] == 1:
+            g = codec.dec_got(st.ob["extra"])[0]
+            if g["kind"] != codec.K_EOF or g["seq"] not in seq_of:
+                continue
+            k = seq_of[g["seq"]]
+            _, put, data = puts[k]
+            if k in tampered or data is None:
+                continue
+            remote = next((r for r in tr.cfg["remotes"] if r["id"] == put["dst"]), None)
+            if remote is None or remote["cktype"] not in (0, 2, 3, 15) or g["fsize"] > len(data):
+                continue
+            n += 1
+            want = c09.expected(remote["cktype"], data[:g["fsize"]])
+            if g["cksum"] != want:
+                raise Failure(f"C09 EOF PDU of transaction {g['seq']} (condition {g['cond']}, size {g['fsize']}) carries checksum "
+                              f"{g['cksum'].hex()}; the checksum (type {remote['cktype']}) of the {g['fsize']} bytes sent is {want.hex()} (op {st.i})")
+    return n
+
+
 def hdr_len(p):
     return 4 + 2 * p["idw"] + p["seqw"]
 
@@ -221,7 +258,7 @@ def reuse_source_case(cfgs_datas, tag="c07r"):
 def c07_reuse_cases(tier, rng):
     import copy
     out = []
-    for _ in range(60 if tier == "quick" else 600):
+    for _ in range(60 if tier == "quick" else 4000):
         base = Cfg(mode=1, closure=False, max_seg=rng.choice([1, 2, 4, 7]), max_packet=64, cktype=rng.choice([0, 2, 3, 15]),
                    crc=rng.random() < 0.3)
         seq = []
@@ -458,11 +495,11 @@ def c08_cases(tier, rng):
                 for (a, b) in rng_pairs:
                     cases.append((Cfg(mode=0, max_seg=seg, ack_limit=5, closure=False), data, k, [[(a, b)]]))
             # double requests
-            for _ in range(30 if tier == "quick" else 200):
+            for _ in range(30 if tier == "quick" else 1200):
                 k = rng.randint(0, ncalls_max)
                 rq = [rng.choice(rng_pairs), rng.choice(rng_pairs)]
                 cases.append((Cfg(mode=0, max_seg=seg, ack_limit=5), data, k, [rq]))
-    for _ in range(150 if tier == "quick" else 1500):
+    for _ in range(150 if tier == "quick" else 10000):
         size = rng.choice([1, 4, 5, 8, 13])
         data = bytes(rng.getrandbits(8) for _ in range(size))
         seg = rng.choice([1, 2, 3, 4, 7])
@@ -479,7 +516,7 @@ def c08_cases(tier, rng):
         cfg = campaign.rand_cfg(rng, mode=0, req_mode=None, max_seg=seg, max_packet=64, ack_limit=5)
         cases.append((cfg, data, rng.randint(0, size + 3), reqs_list))
     # NAKs arriving in different steps of one transfer (sending file data, awaiting the EOF ACK, awaiting Finished)
-    for _ in range(120 if tier == "quick" else 1500):
+    for _ in range(120 if tier == "quick" else 10000):
         size = rng.choice([4, 5, 8, 9, 13])
         data = bytes(rng.getrandbits(8) for _ in range(size))
         seg = rng.choice([2, 3, 4])
